@@ -68,7 +68,7 @@ def run(out, info, tier, seed):
     out.trusted_base = common.COMMON_TRUSTED + ['modelled by hand: MosaikRemote.set_data/_assert_async_requests, inputs_from_set_data, successors_to_wait_for (Sched/Plane.v, Sched/Timing.v); MosaikRemote.get_data: only its permission test is modelled (the one set_data shares); the data it returns is not']
     out.assumptions = ['register semantics: a value written twice to the same (entity, attribute, writer) before the next step of the target is superseded']
     sched_check.sched_property(out, info, tier, seed, 'C16', KINDS, monitors.P_C16, case_gen=case_gen,
-                               ncases=(130, 2000), variants=[(True, True), (False, True), (False, False)],
+                               ncases=(220, 2500), variants=[(True, True), (False, True), (False, False)],
                                nontrivial=nontrivial, features=features,
                                extra_obligations=[('Sched.Final (async bound)', 'Sched/Final'), ('Sched.DataP', 'Sched/DataP'), ('Sched.SetData (set_data stays until the next step and is delivered by it)', 'Sched/SetData')])
     out.coverage['nontrivial_rule'] = 'a set_data or an asynchronous get_data call was issued during the run'
